@@ -15,5 +15,5 @@ def run(ctx):
         "all regions; start/end/span delegate unchanged. 'Either letter case' is read as the case of the target letters."
     )
     r.not_decided = ["greedy/lazy choice inside re (T2)", "lower-case ambiguity letters in a pattern are not transcribed by the code; no rule is armed on that"]
-    transcription_rule(ctx, "C16.transcription")
+    ctx.guard(transcription_rule, ctx, "C16.transcription")
     run_kernels(ctx, ["K2", "K1"], "C16")
